@@ -1134,6 +1134,9 @@ def bqm_history(ctx, r, dt, nops, lines, expect, meta, malformed_rate, script=No
     ref = RefB(vt0)
     ordered = dt != 'obj'
     held = {}            # view objects obtained earlier (may be stale)
+    # read objects REACHED from the model once, before any edit, and read again after the edits (a per-object cache that an
+    # in-place mutation does not refresh shows here): the Variables object and the linear / quadratic / adj views
+    reached = (b.variables, b.linear, b.quadratic, b.adj)
     hist = []            # repro source lines
     lines.append(f'new {vt0}'); expect.append(('text', 'ok ' + ref.text())); meta.append((dt, 'new', None))
     psync = True         # object back-end: the driver's dict model (`PyB`) holds the real `_adj`
@@ -1340,6 +1343,28 @@ def bqm_history(ctx, r, dt, nops, lines, expect, meta, malformed_rate, script=No
                              f'after {src}: {bad}', repro=repro_script(dt, vt0, hist, ['print(state(b))', 'assert False, ' + repr(bad)]),
                              detail=dict(history=hist[-8:], expected=ref.convert(T).text()))
                     return
+            try:
+                V0, lin0, quad0, adj0 = reached
+                Lr = list(V0)
+                badr = None
+                if (Lr != ref.labels if ordered else sorted(map(lab, Lr)) != sorted(map(lab, ref.labels))) or len(V0) != len(ref.labels):
+                    badr = f'the Variables object obtained before the edits lists {Lr!r}, the model has {ref.labels!r}'
+                elif {v: fr(x) for v, x in lin0.items()} != ref.lin or len(lin0) != len(ref.lin):
+                    badr = 'the linear view obtained before the edits differs from the polynomial'
+                elif {pkey(*kk): fr(x) for kk, x in quad0.items()} != ref.quad or len(quad0) != len(ref.quad):
+                    badr = 'the quadratic view obtained before the edits differs from the polynomial'
+                elif {v: {u: fr(x) for u, x in adj0[v].items()} for v in adj0} != {v: dict(ref.nbrs(v)) for v in ref.labels}:
+                    badr = 'the adj view obtained before the edits differs from the polynomial'
+                elif any((v in V0) != (v in ref.lin) or (ordered and v in ref.lin and V0.index(v) != Lr.index(v)) for v in LABELS):
+                    badr = 'membership / index of the Variables object obtained before the edits'
+            except Exception as e:  # noqa
+                badr = f'reading an object obtained before the edits raised {type(e).__name__}: {e}'
+            if badr:
+                ctx.fail('property', 'BQM read paths' + ('' if dt != 'obj' else '[object]'), 'objects reached before the edits',
+                         f'after {src}: {badr}', repro=repro_script(dt, vt0, ['V0, lin0, quad0, adj0 = b.variables, b.linear, b.quadratic, b.adj'] + hist,
+                                                                    ['print(list(V0), dict(lin0), dict(quad0)); print(state(b))', 'assert False, ' + repr(badr)]),
+                         detail=dict(history=hist[-8:], expected=ref.text()))
+                return
             ctx.tick('reads_checked')
             # every reader as the model defines it (`Bqm.getLinear` … `toNumpyVectors`, the subjects of `readers_consistent`)
             if ordered:
